@@ -154,6 +154,7 @@ func genC01(r *rng, n int) {
 			die("generated IDL does not parse: %v\n%s", err, idl)
 		}
 		val := g.genValue(root, 0)
+		permuteStructKeys(g, val)
 		buf := val.encode(nil)
 		rootNode := generic.NewNode(thrift.STRUCT, buf)
 		rootVal := generic.NewValue(desc, buf)
